@@ -162,7 +162,7 @@ def handle (st : St) (line : String) : St × List String :=
     | [] => (st, [s!"MISMATCH {tag} empty"])
   | _ => (st, [])
 
-def run (lines : Array String) : Array String := Id.run do
+def run (_args : List String) (lines : Array String) : Array String := Id.run do
   let mut st : St := {}
   let mut out : Array String := #[]
   for l in lines do
